@@ -48,11 +48,7 @@ Lemma http_response_complete : forall limit body,
   N.of_nat (length body) <= limit -> http_response limit 200 body = Some body.
 Proof. intros. unfold http_response. cbn. apply limited_read_complete. assumption. Qed.
 
-Section Amp.
-  Variable to_unicode : bytes -> option bytes.
-  Variable to_ascii : bytes -> option bytes.
-  Variable sha256 : bytes -> bytes.
-  Variable h34 : bytes -> bool.
+Section AmpRead.
   Variable armor_decode : bytes -> option bytes.
 
   Lemma amp_read_ok : forall limit body d,
@@ -90,7 +86,11 @@ Section Amp.
     intros. unfold amp_response. destruct (status =? 200) eqn:E; [apply N.eqb_eq in E; congruence|reflexivity].
   Qed.
 
-  (* ---------- fronting ---------- *)
+End AmpRead.
+
+(* ---------- fronting ---------- *)
+
+Section Fronting.
 
   Lemma with_front_set : forall front q, front <> [] ->
     q_connect_host (with_front front q) = front /\
@@ -125,6 +125,14 @@ Section Amp.
     let q := http_request b [] body in
     q_connect_host q = b_host b /\ q_host_header q = b_host b.
   Proof. intros. split; reflexivity. Qed.
+
+End Fronting.
+
+Section Amp.
+  Variable to_unicode : bytes -> option bytes.
+  Variable to_ascii : bytes -> option bytes.
+  Variable sha256 : bytes -> bytes.
+  Variable h34 : bytes -> bool.
 
   Lemma amp_fronting : forall b cache front cb data q, front <> [] ->
     amp_request to_unicode to_ascii sha256 h34 b cache front cb data = Some q ->
